@@ -25,7 +25,7 @@ from fpy2.ast.fpyast import (Argument, Assign, Call, ContextStmt, Expr, ForStmt,
                              IfExpr, Fst, Snd)
 from fpy2.number import Context, Float
 from fpy2.types import BoolType, ContextType, FunctionType, ListType, RealType, TupleType, VarType
-from fpy2.utils import NamedId
+from fpy2.utils import UNINIT, NamedId
 
 from vlib.denote import deep_den
 
@@ -169,6 +169,8 @@ def kind_of(v):
 
 def has_shape(v, ty):
     """None if `v` has the shape of `ty`, else a short description of the first mismatch."""
+    if v is UNINIT:
+        return None          # a slot of `empty(n)` that was not stored to yet holds no value
     if isinstance(ty, VarType) or isinstance(ty, FunctionType):
         return None          # unconstrained
     if isinstance(ty, RealType):
